@@ -5,3 +5,8 @@ import SonicSpec.Model.JsonTree
 import SonicSpec.Model.GoTypes
 import SonicSpec.Driver.Dispatch
 import SonicSpec.Props.C20
+import SonicSpec.Model.Num
+import SonicSpec.Model.NumFmt
+import SonicSpec.Model.NumSpec
+import SonicSpec.Props.C19
+import SonicSpec.Props.C10
